@@ -26,6 +26,21 @@ fn observed_pens(wk: &Walker) -> Vec<(PenSpec, &'static str)> {
         let r = v.cursor().row;
         out.push((PenSpec::of(v.view()[r][col.min(cols - 1)].pen()), what));
     };
+    // every way of printing a cell: insert mode, after a deferred wrap, overwriting the last
+    // column with auto-wrap off, through the DEC graphics charset, and REP (in replace and
+    // insert mode) next to a cell that was printed with a different pen (the replica's
+    // pen is parked in the saved context while that neighbour is printed)
+    at_cursor_row("\x18\x1b[4h\x1b[1;1HX", 0, "cell printed in insert mode", &mut out);
+    at_cursor_row("\x18\x1b(0\x1b[1;1Hq", 0, "cell printed through the DEC graphics charset", &mut out);
+    at_cursor_row(&format!("\x18\x1b[?7h\x1b[1;{}HXY", cols), 0, "cell printed after a deferred wrap", &mut out);
+    at_cursor_row(&format!("\x18\x1b[?7l\x1b[1;{}HXY", cols), cols - 1, "cell overwritten in the last column with auto-wrap off", &mut out);
+    if cols >= 2 {
+        at_cursor_row("\x18\x1b[4l\x1b7\x1b[0;7m\x1b[1;1HX\x1b8\x1b[1;2H\x1b[b", 1, "cell written by REP", &mut out);
+    }
+    if cols >= 4 {
+        at_cursor_row("\x18\x1b[4h\x1b7\x1b[0;7m\x1b[1;1HX\x1b8\x1b[1;2H\x1b[b", 1, "cell written by REP in insert mode", &mut out);
+        at_cursor_row("\x18\x1b[4h\x1b7\x1b[0;7m\x1b[1;1HX\x1b8\x1b[1;2H\x1b[2b", 2, "second cell written by REP 2 in insert mode", &mut out);
+    }
     at_cursor_row("\x18\x1b[1;1H\x1b[2K", cols - 1, "cell blanked by EL 2", &mut out);
     at_cursor_row("\x18\x1b[1;1H\x1b[K", 0, "cell blanked by EL 0", &mut out);
     at_cursor_row("\x18\x1b[1;1H\x1b[1K", 0, "cell blanked by EL 1", &mut out);
